@@ -42,7 +42,7 @@ func New(encryptionKey, passwordHash string, logger logging.Logger) (*Authentica
 	e = some(where (p.eft == allow))
 
 	[matchers]
-	m = (r.sub == p.sub || r.sub == "master") && (keyMatch(r.obj, p.obj) || keyMatch(r.obj, '/v1'+p.obj)) && regexMatch(r.act, p.act)`)
+	m = (r.sub == p.sub || r.sub == "master") && (keyMatch(r.obj, p.obj) || keyMatch(r.obj, '/v1'+p.obj)) && regexMatch(r.act, '^(' + p.act + ')$')`)
 
 	if err != nil {
 		return nil, err
